@@ -414,7 +414,7 @@ theorem select_plain (cur : Row N) (x : IVal N) (hx : x ≠ .omit) :
     | error e => exact .inr ⟨e, rfl, p, rfl⟩
 
 /-- the hypotheses are satisfiable: a two-item list over a concrete row -/
-example : evalSel (N := Int) ⟨.none, none⟩ ⟨[], false, false, [], 0⟩ [("a", .num 2)]
+example : evalSel (N := Int) ⟨.none, none, none⟩ ⟨[], false, false, [], 0⟩ [("a", .num 2)]
     [.item (.col ["a"]) "a" "", .item (.bin .plus (.col ["a"]) (.num 10)) "c" "c"] []
     = .ok [("a", .num 2), ("c", .num 12)] := by decide
 
